@@ -52,6 +52,8 @@ impl<K> EntryInfo<K> {
 
     #[inline]
     pub(crate) fn is_admitted(&self) -> bool {
+        #[cfg(mini_moka_verif)]
+        crate::verif::sp_fine("ei.admitted");
         self.is_admitted.load(Ordering::Acquire)
     }
 
@@ -62,6 +64,8 @@ impl<K> EntryInfo<K> {
 
     #[inline]
     pub(crate) fn is_dirty(&self) -> bool {
+        #[cfg(mini_moka_verif)]
+        crate::verif::sp_fine("ei.dirty");
         self.is_dirty.load(Ordering::Acquire)
     }
 
@@ -72,6 +76,8 @@ impl<K> EntryInfo<K> {
 
     #[inline]
     pub(crate) fn policy_weight(&self) -> u32 {
+        #[cfg(mini_moka_verif)]
+        crate::verif::sp_fine("ei.weight");
         self.policy_weight.load(Ordering::Acquire)
     }
 
